@@ -61,6 +61,28 @@ def coq_project():
             raise RuntimeError("coq_makefile failed: " + out)
 
 
+def coq_closure(roots):
+    """The .v files (absolute paths) the given files transitively Require from this development."""
+    seen, todo = set(), [os.path.join(COQ, r) for r in roots]
+    while todo:
+        f = todo.pop()
+        if f in seen or not os.path.exists(f):
+            continue
+        seen.add(f)
+        src = re.sub(r"\(\*.*?\*\)", "", open(f).read(), flags=re.S)
+        for m in re.finditer(r"From\s+SF\s+Require\s+(?:Import\s+|Export\s+)?(.*?)\.(?=\s|$)", src, flags=re.S):
+            for name in m.group(1).split():
+                todo.append(os.path.join(COQ, name.replace(".", "/") + ".v"))
+        for m in re.finditer(r"\bSF\.([A-Za-z_][A-Za-z0-9_]*(?:\.[A-Za-z_][A-Za-z0-9_']*)+)", src):
+            parts = m.group(1).split(".")
+            for k in range(len(parts), 1, -1):
+                cand = os.path.join(COQ, *parts[:k]) + ".v"
+                if os.path.exists(cand):
+                    todo.append(cand)
+                    break
+    return sorted(seen)
+
+
 def proof_stage(prop, tier, log):
     """Returns dict(obligations, discharged, axioms, problems, theorems)."""
     res = dict(obligations=0, discharged=0, axioms={}, problems=[], theorems=[], checker_cmd="")
@@ -71,7 +93,7 @@ def proof_stage(prop, tier, log):
     if rc != 0:
         res["problems"].append("coq build failed: " + out[-1500:])
     # forbidden constructs anywhere in the development
-    for f in glob.glob(os.path.join(COQ, "**", "*.v"), recursive=True):
+    for f in coq_closure([prop["props_file"]] + prop.get("extra_coq", []) + (["Extract/%s.v" % prop["extract"]] if prop.get("extract") else [])):
         src = re.sub(r"\(\*.*?\*\)", "", open(f).read(), flags=re.S)
         m = FORBIDDEN.search(src)
         if m:
